@@ -212,6 +212,19 @@ pub fn c03_compare(t: &mut Tctx, shape: &Shape, shape_text: &str, sfp: u64, clas
         // the two disagree about where the input goes; that is a mismatch worth reporting
         t.st.count("zero_width_flood_cases");
     }
+    if t.st.want_sample() && input.len() >= 2 && input.len() <= 24 && class != "valid" && t.rng.chance(1, 64) {
+        let mut j = J::obj();
+        j.set("target", J::s(shape_text)).set("input", J::s(hex(input))).set("class", J::s(class));
+        j.set("specification", J::s(match &oracle {
+            Ok(d) => format!("accept {} consuming {}", d.val.show(), d.consumed),
+            Err(e) => format!("reject: {}", e.label()),
+        }));
+        j.set("postcard", J::s(match &real {
+            Ok((v, _, rl)) => format!("Ok({}) remainder {}", v.show(), rl),
+            Err(e) => format!("Err({})", err_label(e)),
+        }));
+        t.st.sample(j);
+    }
     match (&oracle, &real) {
         (Ok(d), Ok((v, rptr, rlen))) => {
             t.st.count("agree_accept");
@@ -816,6 +829,17 @@ fn c04_dyn_case(t: &mut Tctx, gb: &mut GuardBuf, shape: &Shape, text: &str, sfp:
                     if *rptr < base || rptr + rlen != base + input.len() {
                         t.st.violation("C04:remainder-outside-input", format!("remainder is not a suffix of the input (shape {})", text), rp.clone());
                     }
+                }
+                if at_tail && t.st.want_sample() && input.len() >= 2 && input.len() <= 24 && t.rng.chance(1, 64) {
+                    let mut j = J::obj();
+                    j.set("target", J::s(text)).set("input", J::s(hex(input))).set("class", J::s(class));
+                    j.set("outcome", J::s(match r {
+                        Ok((v, _, rl)) => format!("Ok({}) remainder {}", v.show(), rl),
+                        Err(e) => format!("Err({})", err_label(e)),
+                    }));
+                    j.set("bytes_allocated", J::i(al.bytes as u64)).set("borrowed_ranges", J::i(strs.iter().filter(|x| x.2).count() as u64));
+                    j.set("placement", J::s("flush against trailing and leading PROT_NONE pages"));
+                    t.st.sample(j);
                 }
                 if judge_alloc {
                     let elem = std::mem::size_of::<Val>();
